@@ -89,7 +89,7 @@ pub mod watch {
 }
 pub struct CancelTx { pub filler: u8 }
 impl CancelTx { #[verifier::external_body] pub fn subscribe(&self) -> watch::Receiver<Option<String>> { unimplemented!() } }
-pub struct TaskHandle { pub task_id: String, pub status: StatusLock, pub cancel_tx: CancelTx, pub logs: TaskLogs }
+pub struct TaskHandle { pub task_id: String, pub status: StatusLock, pub cancel_tx: CancelTx, pub logs: TaskLogs, pub control_tx: ControlSlot }
 pub struct ShellArgs {
     pub command: String, pub cwd: Option<String>, pub env: Option<EnvMap>, pub artifact_max_bytes: Option<usize>, pub max_bytes: Option<usize>,
     pub rows: Option<u16>, pub cols: Option<u16>,
@@ -130,6 +130,8 @@ impl TaskLogSummary {
 pub struct TaskLogWriter { pub filler: u8 }
 impl TaskLogWriter {
     #[verifier::external_body] pub fn new(config: &TaskEngineConfig, artifact_id: &String, rel_path: &String, max_bytes: usize) -> Result<TaskLogWriter, String> { unimplemented!() }
+    #[verifier::external_body] pub fn append(&mut self, chunk: &[u8]) -> Result<LogValue, ()> { unimplemented!() }
+    #[verifier::external_body] pub fn finish(self) -> TaskLogSummary { unimplemented!() }
 }
 pub assume_specification<T: std::ops::Deref>[ std::option::Option::<T>::as_deref ](o: &Option<T>) -> (r: Option<&T::Target>)
     ensures r is Some <==> o is Some;
@@ -163,12 +165,135 @@ pub fn join_pump(Tracked(life): Tracked<&mut Life>, h: PumpHandle) -> (r: Result
 { unimplemented!() }
 #[verifier::external_body] pub fn select_child_exits_first() -> bool { unimplemented!() }
 //@@ item crates/ripd/src/tasks/mod.rs struct TaskRunContext
-// NOT verified (tasks/pty.rs, 600 lines around a pseudo terminal): assumed to keep the same contract as the pipes executor
+// ---- the pseudo-terminal world (portable_pty, blocking helper threads, channels): stand-ins without contracts unless stated ----------
+pub struct PtyError { pub filler: u8 }
+pub struct PtySize { pub rows: u16, pub cols: u16, pub pixel_width: u16, pub pixel_height: u16 }
+pub struct PtyReader { pub filler: u8 }
+pub struct PtyWriter { pub filler: u8 }
+pub struct Killer { pub filler: u8 }
+pub struct Shared<T> { pub inner: T }
+impl<T> Shared<T> { #[verifier::external_body] pub fn clone(&self) -> Shared<T> { unimplemented!() } }
+#[verifier::external_body] pub fn shared<T>(t: T) -> Shared<T> { unimplemented!() }
+pub struct PtyExitStatus { pub filler: u8 }
+impl PtyExitStatus { #[verifier::external_body] pub fn exit_code(&self) -> u32 { unimplemented!() } }
+pub struct PtyChild { pub filler: u8 }
+impl PtyChild { #[verifier::external_body] pub fn clone_killer(&self) -> Killer { unimplemented!() } }
+pub struct MasterPty { pub filler: u8 }
+impl MasterPty {
+    #[verifier::external_body] pub fn try_clone_reader(&self) -> Result<PtyReader, PtyError> { unimplemented!() }
+    #[verifier::external_body] pub fn take_writer(&self) -> Result<PtyWriter, PtyError> { unimplemented!() }
+}
+pub struct CommandBuilder { pub filler: u8 }
+impl CommandBuilder {
+    #[verifier::external_body] pub fn new(program: String) -> CommandBuilder { unimplemented!() }
+    #[verifier::external_body] pub fn args(&mut self, a: Vec<String>) { unimplemented!() }
+    #[verifier::external_body] pub fn cwd(&mut self, p: PathBuf) { unimplemented!() }
+    #[verifier::external_body] pub fn envs(&mut self, e: &EnvMap) { unimplemented!() }
+}
+pub struct SlavePty { pub filler: u8 }
+impl SlavePty { #[verifier::external_body] pub fn spawn_command(&self, cmd: CommandBuilder) -> Result<PtyChild, PtyError> { unimplemented!() } }
+pub struct PtyPair { pub master: MasterPty, pub slave: SlavePty }
+pub struct PtySystem { pub filler: u8 }
+impl PtySystem { #[verifier::external_body] pub fn openpty(&self, size: PtySize) -> Result<PtyPair, PtyError> { unimplemented!() } }
+#[verifier::external_body] pub fn native_pty_system() -> PtySystem { unimplemented!() }
+//@@ item crates/ripd/src/tasks/mod.rs enum TaskControl
+pub struct ControlTx { pub filler: u8 }
+pub struct ControlRx { pub filler: u8 }
+impl ControlRx { #[verifier::external_body] pub fn recv(&mut self) -> Option<TaskControl> { unimplemented!() } }
+#[verifier::external_body] pub fn control_channel() -> (ControlTx, ControlRx) { unimplemented!() }
+pub struct OutputTx { pub filler: u8 }
+pub struct OutputRx { pub filler: u8 }
+pub enum TryRecvError { Empty, Disconnected }
+impl OutputRx {
+    #[verifier::external_body] pub fn recv(&mut self) -> Option<Vec<u8>> { unimplemented!() }
+    #[verifier::external_body] pub fn try_recv(&mut self) -> Result<Vec<u8>, TryRecvError> { unimplemented!() }
+}
+#[verifier::external_body] pub fn output_channel() -> (OutputTx, OutputRx) { unimplemented!() }
+pub struct ControlSlotGuard { pub filler: u8 }
+impl ControlSlotGuard {
+    #[verifier::external_body] pub fn set(&mut self, tx: ControlTx) { unimplemented!() }
+    #[verifier::external_body] pub fn take(&mut self) -> Option<ControlTx> { unimplemented!() }
+}
+pub struct ControlSlot { pub filler: u8 }
+impl ControlSlot { #[verifier::external_body] pub fn lock(&self) -> ControlSlotGuard { unimplemented!() } }
+pub struct ReaderThread { pub filler: u8 }
+pub struct WaitThread { pub filler: u8 }
+// the blocking reader thread copies pty output into the channel; it writes no frame (its closure body is replaced as a whole)
+#[verifier::external_body] pub fn spawn_pty_reader(r: PtyReader, tx: OutputTx) -> ReaderThread { unimplemented!() }
+#[verifier::external_body] pub fn spawn_wait(c: PtyChild) -> WaitThread { unimplemented!() }
+#[verifier::external_body] pub fn join_wait(w: &mut WaitThread) -> Result<Result<PtyExitStatus, IoError>, JoinError> { unimplemented!() }
+#[verifier::external_body] pub fn join_reader(r: ReaderThread) -> Result<(), JoinError> { unimplemented!() }
+#[verifier::external_body] pub fn kill_blocking(k: Shared<Killer>) { unimplemented!() }
+#[verifier::external_body] pub fn select_arm() -> u8 { unimplemented!() }
+// control operations (stdin, resize, signal) write control frames while the task runs: not under contract, assumed to write only such
+// frames (which are in their place whenever the stream is open and not ended)
 #[verifier::external_body]
-pub fn run_pty_task(Tracked(life): Tracked<&mut Life>, handle: &TaskHandle, ctx: TaskRunContext)
-    requires started(*old(life)),
-    ensures finished(*final(life)),
+pub fn handle_control(task_id: &String, emitter: &TaskEmitter, Tracked(life): Tracked<&mut Life>, stdin: &Shared<PtyWriter>, killer: &Shared<Killer>, master: &mut MasterPty, message: TaskControl)
+    requires old(life).spawned && old(life).terminal == 0,
+    ensures *final(life) == (Life { frames: final(life).frames, ..*old(life) }), final(life).frames >= old(life).frames,
 { unimplemented!() }
+pub mod logs {
+    use vstd::prelude::*;
+    verus! { #[verifier::external_body] pub fn truncate_utf8(bytes: &[u8], max_bytes: usize) -> (String, bool, usize) { unimplemented!() } }
+}
+pub const OUTPUT_EVENT_MAX_BYTES: usize = 8 * 1024;
+pub struct LogValue { pub filler: u8 }
+
+//@@ fn crates/ripd/src/tasks/pty.rs emit_output rules=R3,R6o,R9
+//@@ alias super::logs::truncate_utf8 logs::truncate_utf8
+//@@ alias super::OUTPUT_EVENT_MAX_BYTES OUTPUT_EVENT_MAX_BYTES
+//@@ rewrite &TaskEmitter ==>> &TaskEmitter, Tracked(life): Tracked<&mut Life>
+//@@ rewrite {id} .emit( ==>> emit_t(&{id}, Tracked(&mut *life),
+//@@ sig
+    requires old(life).spawned && old(life).terminal == 0,
+    ensures *final(life) == (Life { frames: final(life).frames, ..*old(life) }), final(life).frames >= old(life).frames,      // [emit_output.writes_at_most_one_output_frame_into_an_open_stream]
+//@@ end
+
+//@@ fn crates/ripd/src/tasks/pty.rs drain_output rules=R3 attr=verifier::exec_allows_no_decreases_clause
+//@@ alias tokio::sync::mpsc::error::TryRecvError TryRecvError
+//@@ rewrite &TaskEmitter ==>> &TaskEmitter, Tracked(life): Tracked<&mut Life>
+//@@ rewrite &mut tokio::sync::mpsc::Receiver<Vec<u8>> ==>> &mut OutputRx
+//@@ rewrite emit_output(task_id, emitter, ==>> emit_output(task_id, emitter, Tracked(&mut *life),
+//@@ sig
+    requires old(life).spawned && old(life).terminal == 0,
+    ensures *final(life) == (Life { frames: final(life).frames, ..*old(life) }), final(life).frames >= old(life).frames,
+//@@ loop 0
+    invariant life.spawned && life.terminal == 0, *life == (Life { frames: life.frames, ..*old(life) }), life.frames >= old(life).frames,
+//@@ end
+
+//@@ fn crates/ripd/src/tasks/pty.rs run_pty_task rules=R3,R6o,R9 attr=verifier::exec_allows_no_decreases_clause
+//@@ alias super::resolve_shell_program resolve_shell_program
+//@@ alias portable_pty::ExitStatus PtyExitStatus
+//@@ alias std::io::Error IoError
+//@@ alias tokio::task::JoinError JoinError
+//@@ rewrite &TaskHandle ==>> &TaskHandle, Tracked(life): Tracked<&mut Life>
+//@@ rewrite fail_task(handle, ==>> fail_task(handle, Tracked(&mut *life),
+//@@ rewrite {id} .emit( ==>> emit_t(&{id}, Tracked(&mut *life),
+//@@ rewrite Ok(path) => cmd.cwd(path), ==>> Ok(path) => { cmd.cwd(path); }
+//@@ rewrite for (key, value) in envs { cmd.env(key, value); } ==>> cmd.envs(envs);
+//@@ rewrite Arc::new(StdMutex::new(child.clone_killer())) ==>> shared(child.clone_killer())
+//@@ rewrite Ok(writer) => Arc::new(StdMutex::new(writer)), ==>> Ok(writer) => shared(writer),
+//@@ rewrite tokio::sync::mpsc::channel::<TaskControl>(1024) ==>> control_channel()
+//@@ rewrite tokio::sync::mpsc::channel::<Vec<u8>>(64) ==>> output_channel()
+//@@ rewrite *guard = Some(control_tx); ==>> guard.set(control_tx);
+//@@ rewrite tokio::task::spawn_blocking(move || { let mut reader = reader; let mut buf = [0u8; 8192]; loop { let n = match reader.read(&mut buf) { Ok(0) => break, Ok(n) => n, Err(err) if err.kind() == std::io::ErrorKind::Interrupted => continue, Err(_) => break, }; if output_tx.blocking_send(buf[..n].to_vec()).is_err() { break; } } }) ==>> spawn_pty_reader(reader, output_tx)
+//@@ rewrite tokio::task::spawn_blocking(move || child.wait()) ==>> spawn_wait(child)
+//@@ rewrite tokio::select! { status = &mut wait_handle, if exit_status.is_none() => { ==>> { let __arm = select_arm(); if __arm == 0 && exit_status.is_none() { let status = join_wait(&mut wait_handle);
+//@@ rewrite } _ = cancel_rx.changed(), if cancel_reason.is_none() => { ==>> } else if __arm == 1 && cancel_reason.is_none() { let _ = cancel_rx.changed();
+//@@ rewrite } maybe_control = control_rx.recv() => { ==>> } else if __arm == 2 { let maybe_control = control_rx.recv();
+//@@ rewrite } maybe_chunk = output_rx.recv(), if !output_closed => { ==>> } else if __arm == 3 && !output_closed { let maybe_chunk = output_rx.recv();
+//@@ rewrite let _ = tokio::task::spawn_blocking(move || { let mut guard = killer.lock().expect("killer lock"); let _ = guard.kill(); }).await; ==>> kill_blocking(killer);
+//@@ rewrite output_thread.await ==>> join_reader(output_thread)
+//@@ rewrite drain_output(&task_id, &emitter, ==>> drain_output(&task_id, &emitter, Tracked(&mut *life),
+//@@ rewrite handle_control(&task_id, &emitter, ==>> handle_control(&task_id, &emitter, Tracked(&mut *life),
+//@@ rewrite emit_output(&task_id, &emitter, ==>> emit_output(&task_id, &emitter, Tracked(&mut *life),
+//@@ sig
+    requires started(*old(life)),
+    ensures finished(*final(life)),          // [run_pty_task.exactly_one_terminal_status_running_at_most_once_cancel_request_before_cancelled]
+//@@ loop 2
+    invariant life.spawned && life.terminal == 0 && life.running == 1 && life.pumps == 0,
+        cancel_reason is Some ==> life.cancel_requested,
+//@@ end
 
 //@@ fn crates/ripd/src/tasks/mod.rs fail_task rules=R3,R6o,R9
 //@@ rewrite &TaskHandle ==>> &TaskHandle, Tracked(life): Tracked<&mut Life>
@@ -206,7 +331,7 @@ pub fn run_pty_task(Tracked(life): Tracked<&mut Life>, handle: &TaskHandle, ctx:
 //@@ rewrite fail_task( &handle, ==>> fail_task(&handle, Tracked(&mut *life),
 //@@ rewrite {id} .emit( ==>> emit_t(&{id}, Tracked(&mut *life),
 //@@ rewrite pipes::run_pipes_task( &handle, ==>> run_pipes_task(&handle, Tracked(&mut *life),
-//@@ rewrite pty::run_pty_task( &handle, ==>> run_pty_task(Tracked(&mut *life), &handle,
+//@@ rewrite pty::run_pty_task( &handle, ==>> run_pty_task(&handle, Tracked(&mut *life),
 //@@ sig
     requires fresh(*old(life)),
     ensures final(life).spawned && final(life).terminal == 1 && final(life).running <= 1 && final(life).pumps == 0,   // [run_task.stream_opens_with_the_spawn_frame_and_ends_with_exactly_one_terminal_status]
